@@ -373,7 +373,9 @@ class VR(VerificationRule):
         return False
 
 
-def insertion_codes(L):
+def insertion_codes(L, unary_only=False):
+    if unary_only:
+        return [c for c in insertion_codes(L) if len(c[1]) <= 1]
     codes = []
     pairs = [(a, b) for a in range(L) for b in range(a, L)]
     for p in range(L):
@@ -428,8 +430,8 @@ def map_tree(node, rep):
     return Node(rep(node.label), [map_tree(c, rep) for c in node.children])
 
 
-def run_db(iterative, root, L, codes, draws=()):
-    table = insertion_codes(L)
+def run_db(iterative, root, L, codes, draws=(), unary_only=False):
+    table = insertion_codes(L, unary_only)
     core.tally(tuple(codes))
     db = RuleDB()
     db.link_searcher(_Searcher(iterative, root))
@@ -498,10 +500,10 @@ NCODES = 39
 def _body_h(vs):
     sh = core.SHAPE
     L = sh["L"]
-    nc = len(insertion_codes(L))
+    nc = len(insertion_codes(L, bool(sh.get("unary"))))
     codes = tuple(sh.get("fixed", [])) + tuple(pick(v, 0, nc - 1) for v in vs)
     with NoTracing():
-        return _run(run_db, bool(sh["iterative"]), sh["root"], L, codes)
+        return _run(run_db, bool(sh["iterative"]), sh["root"], L, codes, (), bool(sh.get("unary")))
 
 
 def _hc(*vs):
@@ -575,7 +577,7 @@ def check_s5(d0: int, d1: int, d2: int, d3: int, d4: int) -> bool:
 def on_shape(shape):  # noqa: F811
     global CAP, NCODES
     CAP = int(shape.get("cap", 2))
-    NCODES = len(insertion_codes(int(shape.get("L", 3))))
+    NCODES = len(insertion_codes(int(shape.get("L", 3)), bool(shape.get("unary"))))
 
 
 # ------------------------------------------------------------------ groups
@@ -596,12 +598,12 @@ def groups(tier):
         gs.append({"name": "S-%s" % name, "fn": "check_s5", "shape": {"dict": name, "cap": 2},
                    "cond_timeout": 900.0, "path_timeout": 60.0, "weight": 250})
 
-    def addh(it, root, L, n, nfix):
-        nc = len(insertion_codes(L))
+    def addh(it, root, L, n, nfix, unary=False):
+        nc = len(insertion_codes(L, unary))
         for fixed in itertools.product(range(nc), repeat=nfix):
             m = n - nfix
-            gs.append({"name": "H-%s-r%d-L%d-n%d-%s" % ("it" if it else "rec", root, L, n, "_".join(map(str, fixed))),
-                       "fn": "check_h%d" % m, "shape": {"iterative": it, "root": root, "L": L, "fixed": list(fixed)},
+            gs.append({"name": "H%s-%s-r%d-L%d-n%d-%s" % ("u" if unary else "", "it" if it else "rec", root, L, n, "_".join(map(str, fixed))),
+                       "fn": "check_h%d" % m, "shape": {"iterative": it, "root": root, "L": L, "fixed": list(fixed), "unary": unary},
                        "cond_timeout": 1800.0, "path_timeout": 60.0, "expect_space": nc ** m, "weight": nc ** m})
 
     if tier == "quick":
@@ -610,6 +612,8 @@ def groups(tier):
                 addh(it, root, 2, 3, 1)
             for root in (0, 1, 2):
                 addh(it, root, 3, 2, 1)
+            # three insertions over 3 labels restricted to verification / unary rules (equivalences and cycles)
+            addh(it, 0, 3, 3, 1, unary=True)
     else:
         for it in (False, True):
             for root in (0, 1):
@@ -650,7 +654,8 @@ def meta(tier):
             "quick": "A: all 4096 rule dictionaries over 2 labels with arity<=2, every root, every finder (generators capped at 300 "
                      "trees); R/S: 8 catalogue dictionaries x draw tapes of 5 draws in {0,1,2+}; M: maximum in [0,14]; "
                      "H: all histories of 3 insertions over 2 labels (16 insertion kinds: verification, two-way/one-way unary, binary) and of "
-                     "2 insertions over 3 labels (39 kinds), every root, recursive and iterative; has_specification after every add",
+                     "2 insertions over 3 labels (39 kinds), every root, recursive and iterative, and of 3 insertions over 3 labels restricted to "
+                     "verification/unary rules (21 kinds, root 0); has_specification after every add",
             "thorough": "as quick plus H: 3 insertions over 3 labels for roots 0 and 2 (both modes), 4 insertions over 2 labels (recursive roots 0,1; iterative root 0)",
         }[tier],
         "outside": ["dictionaries with more labels / arity than stated", "time-limited minimisation beyond 2 extra random trees",
